@@ -297,6 +297,17 @@ func (s *Session) Mail(from string, opts *smtp.MailOptions) error {
 	s.msgLock.Lock()
 	defer s.msgLock.Unlock()
 
+	if s.delivery != nil {
+		// The pinned go-smtp accepts MAIL inside a transaction. Starting a
+		// second delivery (or replacing the sender the limits were taken
+		// for) would leak the first one.
+		return &smtp.SMTPError{
+			Code:         503,
+			EnhancedCode: smtp.EnhancedCode{5, 5, 1},
+			Message:      "Nested MAIL command, use RSET first",
+		}
+	}
+
 	if !s.endp.deferServerReject {
 		// Will initialize s.msgCtx.
 		msgID, err := s.startDelivery(s.sessionCtx, from, *opts)
